@@ -25,7 +25,9 @@ EXPLANATION = (
     'bounds is non-degenerate (init_min < init_max) and inside the bounds on '
     'every region of the piecewise-linear case analysis (bounds below, at, '
     'between and above the constants 0 and 1), so that the library '
-    'initializers accept it. (W1) Lattice / KFL __init__ forward their bounds '
+    'initializers accept it. (I4) the number of keypoints the equal_slopes '
+    'initializer turns into a [rows, 1] tensor equals the number of kernel '
+    'rows in both cyclic modes. (W1) Lattice / KFL __init__ forward their bounds '
     'and init range to the factory unchanged.')
 ASSUMPTIONS = ['an initializer object influences the kernel only through its '
                'constructor arguments',
@@ -40,6 +42,8 @@ def run(prog, res):
   _pwl(prog, res)
   _kfl(prog, res)
   _default_range(prog, res)
+  _pwl_init_sizes(prog, res)
+  res.floor('I4', 1)
   res.floor('K5', 20)
   res.floor('I3', 2)
   res.floor('W1', 8)
@@ -320,3 +324,112 @@ def _default_range(prog, res):
                   'degenerate - the initializers reject init_min >= init_max, '
                   'so the layer cannot be built' if bad and not bad[2] < bad[3]
                   else 'outside the bounds') if bad else '')
+
+
+# ---------------------------------------------------------------------------
+def _pwl_init_sizes(prog, res):
+  """I4: the 'equal_slopes' initializer turns its keypoints into a tensor of
+  shape [rows, 1] where rows is the number of kernel rows the layer asks
+  for.  The layer allocates len(input_keypoints) - is_cyclic rows and hands
+  all its keypoints to the initializer, so for each cyclic mode the number
+  of keypoints that reaches tf.constant(..., shape=[rows, 1]) must equal
+  rows (a slice keypoints[:rows] / [:-1] counts)."""
+  build = prog.function('pwl_calibration_layer.PWLCalibration.build')
+  init = prog.function('pwl_calibration_layer.PWLCalibration.__init__')
+  lin = prog.function('pwl_calibration_lib.linear_initializer')
+  res.analysed(build, init, lin)
+
+  # rows(K, c) from build
+  rows_expr = None
+  for st in ast.walk(build.node):
+    if isinstance(st, ast.Assign) and dotted(st.targets[0]) == 'num_weights':
+      rows_expr = st.value
+  if rows_expr is None:
+    raise AnalysisError('PWLCalibration.build: num_weights vanished')
+
+  def size(e, K, c, env):
+    t = norm_text(e).replace(' ', '')
+    if t in ('input_keypoints.size', 'len(input_keypoints)',
+             'len(self.input_keypoints)', 'self.input_keypoints.size'):
+      return K
+    if t in ('self.is_cyclic', 'is_cyclic', 'int(self.is_cyclic)'):
+      return c
+    if isinstance(e, ast.Constant) and isinstance(e.value, int):
+      return e.value
+    if isinstance(e, ast.Name) and e.id in env:
+      return env[e.id]
+    if isinstance(e, ast.BinOp) and isinstance(e.op, (ast.Add, ast.Sub)):
+      a, b = size(e.left, K, c, env), size(e.right, K, c, env)
+      return a + b if isinstance(e.op, ast.Add) else a - b
+    raise AnalysisError('I4: size expression `%s`' % t)
+
+  def seq_len(e, K, c, env):
+    """length of a keypoint sequence expression"""
+    if isinstance(e, ast.Subscript) and isinstance(e.slice, ast.Slice):
+      n = seq_len(e.value, K, c, env)
+      lo = size(e.slice.lower, K, c, env) if e.slice.lower is not None else 0
+      hi = size(e.slice.upper, K, c, env) if e.slice.upper is not None else n
+      if e.slice.step is not None:
+        raise AnalysisError('I4: strided keypoints')
+      if lo < 0:
+        lo += n
+      if hi < 0:
+        hi += n
+      return max(0, min(hi, n) - max(lo, 0))
+    if isinstance(e, ast.IfExp):
+      t = norm_text(e.test).replace(' ', '')
+      if t in ('self.is_cyclic', 'is_cyclic'):
+        return seq_len(e.body if c else e.orelse, K, c, env)
+      raise AnalysisError('I4: conditional keypoints on `%s`' % t)
+    t = dotted(e)
+    if t in ('self.input_keypoints', 'input_keypoints'):
+      return K
+    if t in env:
+      return env[t]
+    raise AnalysisError('I4: keypoints expression `%s`' % norm_text(e)[:40])
+
+  # keypoints handed to the initializer (equal_slopes)
+  kp_arg = None
+  uo = prog.cls('pwl_calibration_layer.UniformOutputInitializer')
+  for c_ in wiring.calls_to(prog, init, uo):
+    kw = {k.arg: k.value for k in c_.keywords}
+    if 'keypoints' in kw:
+      kp_arg = kw['keypoints']
+  if kp_arg is None:
+    raise AnalysisError('PWLCalibration.__init__: equal_slopes initializer '
+                        'without keypoints')
+  # inside linear_initializer: tf.constant(<kp>, shape=[num_keypoints, 1])
+  site = None
+  for c_ in ast.walk(lin.node):
+    if isinstance(c_, ast.Call) and prog.ext_name(
+        lin.module, c_.func) == 'tf.constant' and c_.args and 'keypoints' in \
+        {dotted(x) for x in ast.walk(c_.args[0])}:
+      site = c_
+  if site is None:
+    raise AnalysisError('linear_initializer: keypoints tensor vanished')
+  bad = None
+  for c in (0, 1):
+    K = 5
+    rows = size(rows_expr, K, c, {})
+    handed = seq_len(kp_arg, K, c, {})
+    # local re-slicing of `keypoints` inside linear_initializer
+    env = {'keypoints': handed, 'num_keypoints': rows}
+    for st in lin.node.body:
+      if isinstance(st, ast.Assign) and dotted(st.targets[0]) == 'keypoints':
+        env['keypoints'] = seq_len(st.value, handed, c, env)
+      if isinstance(st, ast.If):
+        for s2 in st.body + st.orelse:
+          if isinstance(s2, ast.Assign) and dotted(
+              s2.targets[0]) == 'keypoints':
+            env['keypoints'] = seq_len(s2.value, handed, c, env)
+    got = seq_len(site.args[0], env['keypoints'], c, env)
+    if got != rows and bad is None:
+      bad = (c, got, rows)
+  res.check(bad is None, 'I4', 'pwl_calibration_lib.linear_initializer|'
+            'keypoints-vs-rows', lin.loc(site),
+            'the keypoints turned into a [rows, 1] tensor number rows in both '
+            'cyclic modes',
+            'with is_cyclic=%s the equal_slopes initializer receives %s '
+            'keypoints for a kernel of %s rows (of 5 input keypoints): '
+            'tf.constant(keypoints, shape=[rows, 1]) raises in build()' % (
+                bool(bad[0]), bad[1], bad[2]) if bad else '')
